@@ -55,6 +55,7 @@ SumData(x, s, e, pw) == IF s >= e THEN 0
 BuildL2(x) == [iv \in Iv |-> LenOf(iv) * SumData(x, iv[1], iv[2], 2)
                              - SumData(x, iv[1], iv[2], 1) * SumData(x, iv[1], iv[2], 1)]
 
+Coef(k) == (k * k * 37 + k * 101 + 13) % 997
 SliceOf(w) == w % NSlices
 
 Blank ==
@@ -67,9 +68,9 @@ InitAll ==
     /\ beta \in 0..MaxBeta
     /\ IF TableMode = "slack"
        THEN /\ d \in [FreeIv -> 0..V]
-            /\ SliceOf(SumOver([iv \in FreeIv |-> d[iv] * (7 * iv[1] + 3 * iv[2] + 1)], FreeIv) + beta) = Slice
+            /\ SliceOf(SumOver([iv \in FreeIv |-> d[iv] * Coef(10 * iv[1] + iv[2])], FreeIv) + 331 * beta) = Slice
        ELSE /\ d \in [0..(N - 1) -> 0..V]
-            /\ SliceOf(SumOver([i \in 0..(N - 1) |-> d[i] * (3 * i + 1)], 0..(N - 1)) + beta) = Slice
+            /\ SliceOf(SumOver([i \in 0..(N - 1) |-> d[i] * Coef(i)], 0..(N - 1)) + 331 * beta) = Slice
 
 \* one initial state; the input is built by Pick steps so that -simulate can sample large spaces
 PickDom == IF TableMode = "slack" THEN SortedSeq({100 * iv[1] + iv[2] : iv \in FreeIv})
